@@ -46,6 +46,8 @@ type SCase struct {
 	OnlyInc   int    `json:"only_inc"`
 	OnlyK     int    `json:"only_k"`    // >=0: check only this crash point (minimised replay)
 	OnlyTorn  int    `json:"only_torn"`
+	OnlyK2    int    `json:"only_k2"` // >=0: nested crash point in the recovery journal
+	OnlyTorn2 int    `json:"only_torn2"`
 }
 
 type worldS struct{}
@@ -59,7 +61,7 @@ func (worldS) Components() ([]string, []string) {
 // ---- generation ------------------------------------------------------------------
 
 func (worldS) Gen(r *core.Rand, env *core.Env) SCase {
-	c := SCase{Prop: env.Property, Knobs: genKnobs(r), OnlyK: -1, OnlyTorn: -1}
+	c := SCase{Prop: env.Property, Knobs: genKnobs(r), OnlyK: -1, OnlyTorn: -1, OnlyK2: -1, OnlyTorn2: -1}
 	c.NMst = r.Range(1, 3)
 	c.NSeries = r.Range(1, 5)
 	c.ReadSeed = r.Uint64()
@@ -68,11 +70,11 @@ func (worldS) Gen(r *core.Rand, env *core.Env) SCase {
 	switch env.Property {
 	case "C01":
 		c.Crash = true
-		c.PerClass = 1
-		c.Nested = 2
+		c.PerClass = 2
+		c.Nested = 1
 		if thorough {
-			c.PerClass = 3
-			c.Nested = 6
+			c.PerClass = 4
+			c.Nested = 4
 		}
 	case "C03":
 		c.Crash = true
@@ -148,7 +150,7 @@ func (worldS) Subset(c SCase, keep []int) SCase {
 		op.Rows = append([]SRow(nil), op.Rows...)
 		n.Ops = append(n.Ops, op)
 	}
-	n.OnlyK, n.OnlyTorn = -1, -1
+	n.OnlyK, n.OnlyTorn, n.OnlyK2, n.OnlyTorn2 = -1, -1, -1, -1
 	return n
 }
 
@@ -159,7 +161,7 @@ func cloneSCase(c SCase) SCase {
 		op.Rows = append([]SRow(nil), op.Rows...)
 		n.Ops[i] = op
 	}
-	n.OnlyK, n.OnlyTorn = -1, -1
+	n.OnlyK, n.OnlyTorn, n.OnlyK2, n.OnlyTorn2 = -1, -1, -1, -1
 	return n
 }
 
@@ -230,6 +232,17 @@ func (worldS) Simplify(c SCase) []SCase {
 		out = append(out, n2)
 	}
 	return out
+}
+
+// Pin restricts the case to the crash point recorded in the violation.
+func (worldS) Pin(c SCase, v *core.Violation) (SCase, bool) {
+	var inc, k, torn, k2, torn2 int
+	if n, _ := fmt.Sscanf(v.Attrs["pin"], "%d,%d,%d,%d,%d", &inc, &k, &torn, &k2, &torn2); n != 5 {
+		return c, false
+	}
+	n := cloneSCase(c)
+	n.OnlyInc, n.OnlyK, n.OnlyTorn, n.OnlyK2, n.OnlyTorn2 = inc, k, torn, k2, torn2
+	return n, true
 }
 
 func (worldS) Neutralise(c SCase, name string) (SCase, bool) {
